@@ -121,7 +121,7 @@ func TestC30(t *testing.T) {
 	defer m.Done()
 	m.Rule("Part A (strict, Go<->Go, both always offer kex-strict): per key exchange family the undisturbed plaintext packet sequence of each direction up to and including the first NEWKEYS is recorded (baseline must complete); then every single edit of that sequence is executed by a man-in-the-middle on the byte stream: injection of each packet kind (IGNORE, DEBUG, UNIMPLEMENTED, type 192 with random body; thorough: also EXT_INFO, SERVICE_REQUEST, unassigned numbers, a garbage KEXINIT, early NEWKEYS, 4 random bodies each, and for curve25519 and dh-gex every message number 1..255) before every packet 0..NEWKEYS, deletion of every packet, duplication of every packet before NEWKEYS, every adjacent swap — both directions, tapped constructors for all families plus the public NewClientConn/NewServerConn. Alarm only if the endpoint receiving the edited direction accepts the key exchange (reads NEWKEYS without error; not judged when NEWKEYS itself was deleted, because ciphertext with a clear length field can be misread as NEWKEYS) or its constructor succeeds; failing and freezing (goroutine dumps identical, nobody runnable) are both legal. " +
 		"Part B (strict): per family x cipher suite a tapped connection with RekeyThreshold 1024 moves data until >= 2 re-exchanges completed; the packet after every NEWKEYS must carry sequence number 0 in the tap (written and read, both endpoints) and on the wire (captured bytes decoded by verif/sshref with keys derived from the tapped K/H/session id; the packet after NEWKEYS is tried with 0 and with the continued number; AES-GCM does not use the number and is counted as unobservable). " +
-		"Part C (strict mode not negotiated): an independent non-strict Peer plays client against a Go server and server against a Go client (first kex, auth, 3 execs, one Peer-initiated and one Go-initiated re-exchange) and injects IGNORE / DEBUG before every one of its own packets (plaintext phase, first protected packet, authentication, channel traffic, inside re-exchanges): the session must complete with correct outputs, Go must not answer UNIMPLEMENTED, sequence numbers must keep counting (Peer's own MAC verification, wire decode, tap). UNIMPLEMENTED is injected at every position too and only recorded. Part D: the same Peer offering strict KEX (it restarts its own counters at 0) in both roles x families x suites must complete the same story with a Go endpoint, and Go's packet after every NEWKEYS must verify with 0 only; IGNORE/DEBUG from the strict peer after the first exchange are recorded, not judged. A case is distinct by (family, direction/role, edit, kind, position).")
+		"Part C (strict mode not negotiated): an independent non-strict Peer plays client against a Go server and server against a Go client (first kex, auth, 3 execs, one Peer-initiated and one Go-initiated re-exchange) and injects IGNORE / DEBUG before every one of its own packets (plaintext phase, first protected packet, authentication, channel traffic, inside re-exchanges): the session must complete with correct outputs, Go must not answer UNIMPLEMENTED, sequence numbers must keep counting (Peer's own MAC verification, wire decode, tap). UNIMPLEMENTED is injected at every position too and only recorded. Part D: the same Peer offering strict KEX (it restarts its own counters at 0) in both roles x families x suites must complete the same story with a Go endpoint, and Go's packet after every NEWKEYS must verify with 0 only; IGNORE/DEBUG from the strict peer after the first exchange are recorded, not judged. Part E: the Peer with first_kex_packet_follows (false / right guess / wrong guess by kex / wrong guess by host key algorithm; Go itself never sets the flag), both roles, strict and not, flag also in both re-exchanges: undisturbed sessions must complete (a wrong guess discarded exactly once, a right guess used); strict: every single edit (4 injection kinds at every position incl. KEXINIT|guessed and guessed|real, deletions, duplications, swaps) of the Peer's plaintext packets by the MITM must keep the Go side from accepting; non-strict: IGNORE/DEBUG sent by the Peer before every packet of its story must be tolerated. A case is distinct by (family, direction/role, edit, kind, position).")
 	m.Assume("the tap (ssh.VerifTap, build tag verif) reports the transport's counters faithfully; verif/sshref (packet protection, RFC 4253 key derivation; validated by its own tests against OpenSSH) and the Peer copied from it are correct; the in-memory duplex and the MITM relay bytes faithfully (undisturbed baselines through the same MITM must complete)")
 
 	fams := allFamilies
@@ -603,6 +603,9 @@ func TestC30(t *testing.T) {
 		m.Gate("strict_peer_sessions_ok:"+role, 2*len(quickSuites), "complete sessions (3 key exchanges) between a Go endpoint and the independent peer that restarts its own counters at 0")
 	}
 	m.Gate("strict_peer_wire_zero:rekey", 2*2*2*3, "Go's packet after a re-exchange NEWKEYS verified on the wire with sequence number 0 only (keys computed by the independent peer)")
+
+	// ---------------- Part E: first_kex_packet_follows (c30_follows_test.go) ----------------
+	partFollows(m, suites, roles)
 }
 
 func trimTo(s string, n int) string {
